@@ -111,7 +111,7 @@ Definition c_apply_e (e : ceop) (o : option cval) : res cval :=
   | EWithout k =>
       match l with
       | Some l => match remove_first l k with Some l' => Ok (VL l') | None => Err ValueErr end
-      | None => Ok VMiss          (* nothing there: the helper returns the instance as it is *)
+      | None => Err ValueErr      (* nothing there (a38b02e: reported like a missing element) *)
       end
   end.
 
